@@ -78,6 +78,11 @@ class C09(Check):
                 "retries": len(self.opts["retries"])}
 
     def cases(self):
+        base = self._base_cases()
+        # a sample of them also under `python -O` (assert statements compiled away)
+        return base + [{"kind": "optimized", "sub": c} for c in [c for c in base if not c.get('relink')][::max(1, len(base) // 5)][:5]]
+
+    def _base_cases(self):
         cs = []
         for platform in ("ledger", "sgx", "tcp"):
             for pinstate in ("file", "absent", "forced", "file-is-default", "file-noenv"):
@@ -261,6 +266,9 @@ class C09(Check):
         return vs
 
     def run_case(self, case, stats):
+        if case.get("kind") == "optimized":
+            from ..framework import optimized
+            return optimized(self, case, stats)
         if case.get("relink"):
             return self.relink(case, stats)
         vs = []
